@@ -17,7 +17,8 @@ def run(R):
     import dreye
     from dreye.api.units.pint import ureg
     n = 150 if R.tier == "quick" else 3000
-    R.rule = ("wavelengths 100-2000 nm, spectra scalar / 1-D / N-D (wavelength on any axis via axis=, the axis named from the front "
+    R.rule = ("wavelengths 100-2000 nm (half-nanometre values, a fine dyadic grid 2^-20 nm, arbitrary float64 values: calibration "
+              "polynomial of a spectrometer / uniform random; stored ascending, descending or shuffled), spectra scalar / 1-D / N-D (wavelength on any axis via axis=, the axis named from the front "
               "(0..rank-1) or from the end (-rank..-1), as python int or numpy integer; or last-axis "
               "broadcasting), prefixes ''/milli/micro/nano, plain arrays, plain arrays with irr_units=/flux_units=, pint quantities "
               "in the canonical units (I, E, nm) and in compatible other units (mW/m^2/nm, uW/cm^2/nm, W/m^2/um, kW.., microE, "
@@ -36,6 +37,26 @@ def run(R):
         units = bool(rng.integers(2))
         nl = int(rng.integers(2, 7))
         lam = np.sort(dyadic(rng, 100, 2000, 1, size=nl))
+        # how fine the wavelength grid is: half-nanometre values (as above), a fine dyadic grid (2^-20 nm), or arbitrary
+        # float64 values - the calibration polynomial pixel -> wavelength of a grating spectrometer, or uniform random values;
+        # and the order it is stored in (the conversion acts element by element: ascending, descending or any order)
+        rg = R.rng(5, k)
+        grid = str(rg.choice(["half-nm", "half-nm", "fine-dyadic", "calibrated", "arbitrary-float"]))
+        if grid == "fine-dyadic":
+            lam = np.sort(dyadic(rg, 100, 2000, 20, size=nl))
+        elif grid == "calibrated":
+            pix = np.sort(rg.permutation(2048)[:nl]).astype(np.float64)
+            a0 = float(rg.uniform(100.0, 400.0)); a1 = float(rg.uniform(0.2, 0.7)); a2 = float(rg.uniform(-2e-5, 2e-5))
+            lam = a0 + a1 * pix + a2 * pix ** 2
+        elif grid == "arbitrary-float":
+            lam = np.sort(rg.uniform(100.0, 2000.0, size=nl))
+        assert np.all(lam >= 100.0) and np.all(lam <= 2000.0)
+        order = str(rg.choice(["ascending", "ascending", "descending", "shuffled"]))
+        if order == "descending":
+            lam = lam[::-1].copy()
+        elif order == "shuffled":
+            lam = lam[rg.permutation(nl)]
+        R.count("wavelength-grid:%s" % grid); R.count("wavelength-order:%s" % order)
         if shape == "scalar":
             spec = float(dyadic(rng, -4, 8, 6)); lamv = float(lam[0]); axis = None
         elif shape == "1d":
@@ -81,7 +102,7 @@ def run(R):
         if sfac != 1:
             spec = spec_mag * float(sfac)                   # the same spectrum as plain numbers in I / E (to rounding)
         c = dict(k=k, direction=direction, prefix=pre, shape=shape, units=units, written_as=ukind, spectrum_unit=sunit, wavelength_unit=lunit,
-                 spectrum=spec_mag, wavelengths=lam_mag, axis=axis, axis_as_given=(None if axis_arg is None else int(axis_arg)))
+                 wavelength_grid=grid, wavelength_order=order, spectrum=spec_mag, wavelengths=lam_mag, axis=axis, axis_as_given=(None if axis_arg is None else int(axis_arg)))
         R.count("written-as:%s" % ukind)
         if ukind in ("compatible", "units-argument"):
             R.count("spectrum-unit:%s" % sunit); R.count("wavelength-unit:%s" % lunit)
